@@ -6,6 +6,8 @@ package main
 import (
 	"context"
 	"fmt"
+	"github.com/ClickHouse/ch-go/proto"
+	"io"
 	"os"
 	"os/exec"
 	"path/filepath"
@@ -23,7 +25,7 @@ func init() {
 	props["C12suite"] = runC12Suite
 }
 
-var c12Suites = []string{"select", "insert-telemetry", "faults", "cancel", "foreign-close", "ping", "pool"}
+var c12Suites = []string{"select", "insert-telemetry", "faults", "cancel", "foreign-close", "ping", "pool", "insert-inferred"}
 
 // ---------------------------------------------------------------- inside the race build
 
@@ -119,6 +121,56 @@ func runC12Suite(c *Ctx) {
 					runs++
 				}
 			}
+		}
+	case "insert-inferred":
+		// a streamed INSERT whose columns learn their definitions from the server (Query.Result nil: enum, DateTime64), while the
+		// server sends the header block a second time and keeps sending Progress during the rounds: the input columns belong to
+		// the sending goroutine from the moment it has the column info
+		for i := 0; i < n; i++ {
+			sc, err := connectSim(simOpts{otel: i%2 == 0, readTimeout: 200 * time.Millisecond, compression: []ch.Compression{ch.CompressionDisabled, ch.CompressionLZ4}[i%2]})
+			if err != nil {
+				continue
+			}
+			en := new(proto.ColEnum)
+			dt := new(proto.ColDateTime64).WithPrecision(proto.PrecisionMilli)
+			en.Append("a")
+			dt.Append(time.Unix(1700000000, 0))
+			scols := []srvCol{{"e", "Enum8('a' = 1, 'b' = 2)", genCol(NewRng(1), mustType("Enum8('a' = 1, 'b' = 2)"), 0, genOpts{})},
+				{"d", "DateTime64(3)", genCol(NewRng(1), mustType("DateTime64(3)"), 0, genOpts{})}}
+			sc.conn.feed(sc.enc.dataPacket(1, scols, 0))
+			second := false
+			ch.VerifGate = func(point string) {
+				switch point {
+				case "sender.afterInputFlush":
+					if !second {
+						second = true
+						sc.conn.feed(sc.enc.dataPacket(1, scols, 0)) // the header once more
+					}
+					sc.conn.feed(sc.enc.progress(1, 2, 3, 4, 5, 6))
+				case "sender.done":
+					sc.conn.feed(sc.enc.endOfStream())
+				}
+			}
+			rounds := 0
+			q := ch.Query{Body: "INSERT INTO t VALUES", Input: proto.Input{{Name: "e", Data: en}, {Name: "d", Data: dt}}, OnInput: func(ctx context.Context) error {
+				rounds++
+				if rounds > 6 {
+					return io.EOF
+				}
+				en.Reset()
+				dt.Reset()
+				for k := 0; k < 50; k++ {
+					en.Append([]string{"a", "b"}[k%2])
+					dt.Append(time.Unix(1700000000+int64(k), 0))
+				}
+				return nil
+			}}
+			ctx, cancel := context.WithTimeout(context.Background(), 5*time.Second)
+			_ = sc.client.Do(ctx, q)
+			cancel()
+			ch.VerifGate = nil
+			sc.client.Close()
+			runs++
 		}
 	case "ping":
 		for i := 0; i < n; i++ {
